@@ -196,7 +196,7 @@ def generate(config, key=None, verbose=True):
         extra_args = []
         if base_config(config) == "tfeat":
             _, feat, dbg = config.split(":")
-            extra_args = ["--features", "tracing/" + feat]
+            extra_args = ["--features", " ".join("tracing/" + f for f in feat.split("+"))]     # "a+b": several features
             if dbg == "nodbg":
                 env["RUSTFLAGS"] += " -Cdebug-assertions=off"
         if cfg["kind"] == "repo":
